@@ -593,6 +593,10 @@ def simplify_prefilters(filters: Iterable[ET.Element], collection_tag: str
                 if time_filter.tag != xmlutils.make_clark("C:time-range"):
                     simple = False
                     continue
+                if (not time_filter.get("start") and
+                        not time_filter.get("end")):
+                    # ``time_range_match`` rejects a time-range without bounds
+                    simple = False
                 start, end = time_range_timestamps(time_filter)
                 return tag, start, end, simple
             return tag, TIMESTAMP_MIN, TIMESTAMP_MAX, simple
